@@ -932,8 +932,16 @@ pub fn c17(ctx: &mut Ctx) {
         // calibration self-check: honest runs must sit well inside the budget
         max_ratio_ticks = max_ratio_ticks.max(ht as f64 / bt as f64);
         max_ratio_bytes = max_ratio_bytes.max(hb as f64 / bb as f64);
+        // On the pinned tree every honest run stays below a quarter of its budget (evidence:
+        // max_honest_*_over_budget). A tree on which an honest run needs more is not a harness
+        // fault: it is counted, and beyond the whole budget it is the violation itself.
         if ht * 4 > bt || hb * 4 > bb {
-            ctx.harness_error(&format!("C17 budget calibration: honest run of {} uses ticks {ht}/{bt} bytes {hb}/{bb} (> 1/4)", base.name));
+            ctx.stats.probe("honest-run-above-a-quarter-of-its-budget");
+        }
+        if ht > bt || hb > bb {
+            let class = format!("C17|overwork|honest-run|{}", if ht > bt { "ticks" } else { "bytes" });
+            let replay = replay_envelope("C17", scenario, &ctx.variant, replay_body(base, &[], "overwork", &Outcome::Accept(String::new()), json!({"budget_ticks": bt, "budget_bytes": bb, "ticks": ht, "bytes": hb, "proof_scalars": s0})));
+            ctx.violation(&class, &format!("the unfaulted honest run of {} exceeds the linear budget: ticks {ht} / {bt}, bytes {hb} / {bb}, s={s0}", base.name), replay);
         }
         for (kind, faults) in mine {
             ctx.begin_run(scenario, unit);
